@@ -605,6 +605,17 @@ pub fn run_chunks(prop: &dyn Prop, a: &RunArgs) -> Merged {
                     }
                 }
                 finish_chunk(&mut merged, &r.prefix, false);
+                // every process-level failure costs up to 20 s of CPU; a dozen of them is verdict enough
+                if seen_abort_cases.len() >= 12 {
+                    eprintln!("stopping early: {} cases hung or aborted the worker process", seen_abort_cases.len());
+                    queue.clear();
+                    for mut r in running.drain(..) {
+                        let _ = r.child.kill();
+                        let _ = r.child.wait();
+                        finish_chunk(&mut merged, &r.prefix, false);
+                    }
+                    break;
+                }
                 chunks[ci].attempts += 1;
                 if chunks[ci].attempts > 2000 {
                     eprintln!("HARNESS-ERROR chunk {ci} keeps dying");
@@ -627,7 +638,9 @@ pub fn replay_in_child(path: &Path) -> (Vec<String>, String) {
     let tmp = verif_dir().join("work").join(format!("replay-{}", std::process::id()));
     let _ = fs::create_dir_all(&tmp);
     let prefix = tmp.join("r");
-    let out = Command::new(exe)
+    let so = fs::File::create(prefix.with_extension("stdout")).expect("replay stdout file");
+    let se = fs::File::create(prefix.with_extension("stderr")).expect("replay stderr file");
+    let mut child = Command::new(exe)
         .arg("replay-inner")
         .arg(path)
         .arg("--out")
@@ -635,14 +648,47 @@ pub fn replay_in_child(path: &Path) -> (Vec<String>, String) {
         .env("RUST_BACKTRACE", "0")
         .env("RUST_LIB_BACKTRACE", "0")
         .stdin(Stdio::null())
-        .output()
+        .stdout(so)
+        .stderr(se)
+        .spawn()
         .expect("spawn replay");
+    // same CPU watchdog as for workers: a replayed hang must not hang the check
+    let mut hung = false;
+    let status = loop {
+        match child.try_wait() {
+            Ok(Some(st)) => break st,
+            Ok(None) => {
+                if cpu_secs(child.id()).is_some_and(|c| c > CPU_HANG_SECS) {
+                    let _ = child.kill();
+                    hung = true;
+                    break child.wait().expect("wait replay");
+                }
+                std::thread::sleep(Duration::from_millis(20));
+            }
+            Err(e) => {
+                eprintln!("HARNESS-ERROR wait failed: {e}");
+                std::process::exit(2);
+            }
+        }
+    };
+    struct Out {
+        status: std::process::ExitStatus,
+        stdout: Vec<u8>,
+        stderr: Vec<u8>,
+    }
+    let out = Out {
+        status,
+        stdout: fs::read(prefix.with_extension("stdout")).unwrap_or_default(),
+        stderr: fs::read(prefix.with_extension("stderr")).unwrap_or_default(),
+    };
     let stdout = String::from_utf8_lossy(&out.stdout).to_string();
     let mut sigs: Vec<String> = stdout
         .lines()
         .filter_map(|l| l.strip_prefix("REPLAY-SIGNATURE ").map(str::to_string))
         .collect();
-    if !out.status.success() && out.status.code() != Some(1) {
+    if hung {
+        sigs.push("hang/cpu".to_string());
+    } else if !out.status.success() && out.status.code() != Some(1) {
         let fatal = fs::read_to_string(prefix.with_extension("fatal")).unwrap_or_default();
         let stderr = String::from_utf8_lossy(&out.stderr).to_string();
         if let Some(line) = fatal.lines().rev().find(|l| l.starts_with("HUGE_ALLOC")) {
